@@ -26,7 +26,8 @@ open SoyVerif.Lemmas.JsGenSpec SoyVerif.Lemmas.JsGenSafe SoyVerif.Lemmas.JsGenTo
     identifier characters only (ASCII letters, digits, `_`, `$`, bytes ≥ 0x80 of non-ASCII letters),
     not starting with an ASCII digit  — lexIdent / lexInsideTag after commit 52e7a88;
   * `QChars b`   (namespace, template and callee names): identifier characters and dots;
-  * `CommentSafe` (the file name): no line terminator;
+  * (the file name: nothing — visitSoyFile replaces its line terminators, soyjs 086971f; `commentName_safe` proves
+    the piece `CommentSafe` for every name);
   * file-level nodes (namespace, soydoc, template) occur at file level only, and only they do.
   `FileWN` = `Lemmas.JsGenTop.FileWN` is the conjunction over the whole tree. -/
 abbrev WellNamed (f : SoyFile) : Prop := FileWN f
@@ -203,7 +204,6 @@ def sampleFile : SoyFile :=
                .unspecified false] }
 
 theorem sample_wellNamed : WellNamed sampleFile := by
-  refine ⟨⟨by decide, by decide⟩, ?_⟩
   intro c hc
   simp only [sampleFile, List.mem_cons, List.mem_nil_iff, or_false] at hc
   rcases hc with rfl | rfl
